@@ -752,8 +752,6 @@ def c10(ctx):
     if thorough:
         ctx.tlc_expect_ok("Gmw", "Gmw_mc.cfg", name="gmw-mc-3", timeout=3400, heap="16g",
                           cfg_text="SPECIFICATION Spec\nCONSTANT P = 3\nINVARIANT Safety\nCHECK_DEADLOCK FALSE\n")
-        ctx.tlc_expect_ok("Gmw", "Gmw_mc.cfg", name="gmw-sim-4", mode="sim", sim="num=20000", depth=6, workers=8, timeout=3400,
-                          cfg_text="SPECIFICATION Spec\nCONSTANT P = 4\nINVARIANT Safety\nCHECK_DEADLOCK FALSE\n")
     else:
         ctx.tlc_expect_ok("Gmw", "Gmw_mc.cfg", name="gmw-sim-3", mode="sim", sim="num=3000", depth=6, workers=4, timeout=1500,
                           cfg_text="SPECIFICATION Spec\nCONSTANT P = 3\nINVARIANT Safety\nCHECK_DEADLOCK FALSE\n")
